@@ -168,6 +168,8 @@ pub enum Op {
     /// `into_raw` followed by `from_raw` (the documented escape hatch) and `reserve`: nothing observable may change,
     /// and the id bookkeeping `from_raw` rebuilds must be the one the following operations need
     RawRoundTrip { dom: usize, reserve: usize },
+    /// WeakDom::reserve on a live DOM (documented as a capacity hint: nothing observable may change)
+    Reserve { dom: usize, additional: usize },
 }
 
 fn op_name(op: &Op) -> &'static str {
@@ -180,6 +182,7 @@ fn op_name(op: &Op) -> &'static str {
         Op::CloneInto { .. } => "clone_into_external",
         Op::CloneMulti { .. } => "clone_multiple_into_external",
         Op::RawRoundTrip { .. } => "into_raw+from_raw",
+        Op::Reserve { .. } => "reserve",
     }
 }
 
@@ -398,7 +401,10 @@ fn gen_op(ch: &mut dyn Chooser, w: &World, cfg: &Cfg) -> Option<Op> {
     let live: Vec<usize> = w.m.nodes.keys().copied().collect();
     let nonroot: Vec<usize> = live.iter().copied().filter(|i| !w.m.roots.contains(i)).collect();
     let kinds = 9;
-    if cfg.rich_props && !cfg.exhaustive && ch.choose(25) == 0 {
+    if cfg.rich_props && !cfg.exhaustive && ch.choose(14) == 0 {
+        if ch.choose(2) == 0 {
+            return Some(Op::Reserve { dom: ch.choose(cfg.ndoms), additional: [0usize, 1, 7, 64, 1000, 100_000][ch.choose(6)] });
+        }
         return Some(Op::RawRoundTrip { dom: ch.choose(cfg.ndoms), reserve: [0usize, 1, 64][ch.choose(3)] });
     }
     for _ in 0..8 {
@@ -923,6 +929,9 @@ pub fn apply(w: &mut World, op: &Op, out: &mut Vec<V>) {
             let copies: Vec<usize> = pairs.iter().map(|(_, c)| *c).collect();
             let entering = entering_uids(&w.m, &copies);
             check_uid_rule(w, *dest, &entering, &s_before, out, opn);
+        }
+        Op::Reserve { dom, additional } => {
+            w.doms[*dom].reserve(*additional);
         }
         Op::RawRoundTrip { dom, .. } if w.m.nodes.values().any(|n| n.dom == *dom && matches!(n.props.get("UniqueId"), Some(MV::V(_)))) => {}
         Op::RawRoundTrip { dom, reserve } => {
